@@ -178,7 +178,11 @@ def main():
                      if t in axioms and not any(t.split(".")[-1] in b for b in broken))
 
     # ---- 4-5 correspondence + oracle
-    ops = list(mod.gen_ops(tier, rng))
+    ops = []
+    cpath = os.path.join(VERIF, "corpus", "%s.txt" % prop)
+    if os.path.exists(cpath):
+        ops += [("corpus", l.strip()) for l in open(cpath) if l.strip() and not l.startswith("#")]
+    ops += list(mod.gen_ops(tier, rng))
     rows = evaluate(mod, ops, have_driver)
     known = common.Known()
     mismatches = [r for r in rows if r["mismatch"]]
